@@ -62,7 +62,10 @@ WARM_CAPPED = [{"entry": "solve-warm", "maxtr": "1", "maxspg": "1"}, {"entry": "
 
 
 def _ks(tier):
-    return (1, 2) if tier == "quick" else (2, 3)
+    # the thorough tier has the same deviation bounds as the quick tier and a wider alphabet (all 6 spectra, n = 3, all
+    # starts, Rosenbrock with k = 2 and 16 shards).  A first version with k = (2, 3) costs ~30 CPU-hours and never finished
+    # inside a 100-minute box on the 16-core sandbox; single groups of it were run (one of them found defect D29)
+    return (1, 2)
 
 
 FAMS_Q = [("spd1", "I"), ("spd100", "G"), ("badscale", "G"), ("indef", "G"), ("zeroA", "I"), ("semidef", "G")]
